@@ -94,7 +94,10 @@ def impl_dedup_op_ids(ids: list[str]) -> list[str]:
     from pyopenapi_gen.context.render_context import RenderContext
     from pyopenapi_gen.emitters.endpoints_emitter import EndpointsEmitter
 
-    ops = [IROperation(operation_id=i, method=HTTPMethod.GET, path="/x", summary=None, description=None) for i in ids]
+    import random as _r
+    rr = _r.Random(repr(ids))   # tags are irrelevant to the (global) pass: give every operation 0-2 random tags
+    ops = [IROperation(operation_id=i, method=HTTPMethod.GET, path="/x", summary=None, description=None,
+                       tags=rr.sample(["users", "admin", "pets"], rr.randint(0, 2))) for i in ids]
     EndpointsEmitter(RenderContext())._deduplicate_operation_ids_globally(ops)
     return [o.operation_id for o in ops]
 
